@@ -264,8 +264,21 @@ def r_tag_first(ck: Checker) -> None:
                     and dotted(st.value.func.value) == outv and st.value.func.attr == "update":
                 others_written = True
                 sorted_fill = st
-            elif isinstance(st, ast.Assign) and any(n == outv for t in st.targets for n in [dotted(t)]):
-                if not (isinstance(st.value, ast.Dict) and not st.value.keys) and norm(st.value) != "dict()":
+            elif isinstance(st, (ast.Assign, ast.AnnAssign)) and st.value is not None and any(
+                    n == outv for t in (st.targets if isinstance(st, ast.Assign) else [st.target]) for n in [dotted(t)]):
+                if isinstance(st.value, ast.Dict) and all(k is not None for k in st.value.keys):
+                    # a literal initialiser: its keys are inserted in the order written
+                    for k_, v_ in zip(st.value.keys, st.value.values):
+                        if dotted(k_) == "TYPE_KEY" or is_const(k_, "__type"):
+                            n_eval += 1
+                            if others_written:
+                                ck.violation("R-TAG-FIRST", f, st, "the type tag is stored before any other key", construct="tag stored after other keys")
+                            if norm(v_) not in ("self.__class__.__name__", "type(self).__name__"):
+                                ck.violation("R-TAG-TABLE", f, st, "the tag value is the class name", construct=f"tag value {norm(v_)}")
+                            tag_written = True
+                        else:
+                            others_written = True
+                elif norm(st.value) != "dict()":
                     raise Unsupported(f"output mapping initialised with {norm(st.value)}", st)
         skip = flags.get("SKIP_CLASS")
         if skip is None:
@@ -307,6 +320,19 @@ def r_tag_first(ck: Checker) -> None:
                         and norm(body1.value) == f"{dparam}[{tg.id}]"
                     )
                     ok = body_ok and rev_ok
+            if isinstance(sorted_fill, ast.Expr):  # out.update(sorted(d.items(), key=<first component>)): pairs are inserted in sorted key order
+                c = sorted_fill.value.args[0] if len(sorted_fill.value.args) == 1 and not sorted_fill.value.keywords else None  # type: ignore[attr-defined]
+                if isinstance(c, ast.Call) and dotted(c.func) == "dict" and len(c.args) == 1 and not c.keywords:
+                    c = c.args[0]
+                if isinstance(c, ast.Call) and dotted(c.func) == "sorted" and len(c.args) == 1:
+                    keyf = next((k.value for k in c.keywords if k.arg == "key"), None)
+                    rev = next((k.value for k in c.keywords if k.arg == "reverse"), None)
+                    src_ok = isinstance(c.args[0], ast.Call) and isinstance(c.args[0].func, ast.Attribute) and c.args[0].func.attr == "items" \
+                        and norm(c.args[0].func.value) == dparam and not c.args[0].args
+                    key_ok = keyf is None or norm(keyf) in ("itemgetter(0)", "operator.itemgetter(0)") or (
+                        isinstance(keyf, ast.Lambda) and isinstance(keyf.body, ast.Subscript) and is_const(keyf.body.slice, 0)
+                        and norm(keyf.body.value) == keyf.args.args[0].arg)
+                    ok = src_ok and key_ok and (rev is None or is_const(rev, False)) and not [k for k in c.keywords if k.arg not in ("key", "reverse")]
             if ok:
                 ck.holds("R-SORTED", f, sorted_fill, what)
             else:
@@ -392,9 +418,14 @@ def r_overrides(ck: Checker) -> None:
                 cur: ast.AST = dct
                 while id(cur) in parents:
                     prev, cur = cur, parents[id(cur)]
-                    if isinstance(cur, ast.If) and any(prev is x or any(prev is y for y in ast.walk(x)) for x in cur.body):
-                        t = cur.test
-                        if isinstance(t, ast.UnaryOp) and isinstance(t.op, ast.Not) and _opt_flag(t.operand, fn) == "SKIP_CLASS":
+                    if isinstance(cur, ast.If):
+                        in_body = any(prev is x or any(prev is y for y in ast.walk(x)) for x in cur.body)
+                        in_else = any(prev is x or any(prev is y for y in ast.walk(x)) for x in cur.orelse)
+                        t, pol = cur.test, True
+                        while isinstance(t, ast.UnaryOp) and isinstance(t.op, ast.Not):
+                            t, pol = t.operand, not pol
+                        # reached only when SKIP_CLASS is false: body of `if not SKIP`, or else-branch of `if SKIP`
+                        if _opt_flag(t, fn) == "SKIP_CLASS" and ((in_body and not pol) or (in_else and pol)):
                             guarded = True
                 what3 = "a literal mapping written by the override carries a type tag only when tags are not suppressed"
                 if guarded:
